@@ -31,7 +31,7 @@ _UNITS = {
     'n': 10 ** -9,
 }
 
-_TIMEOUT_RE = re.compile(r'^(\d+)([{}])$'.format(''.join(_UNITS)))
+_TIMEOUT_RE = re.compile(r'^([0-9]{{1,8}})([{}])\Z'.format(''.join(_UNITS)))
 
 _STATUS_DETAILS_KEY = 'grpc-status-details-bin'
 
